@@ -1,5 +1,4 @@
-import Prism.Float.SF
-import Prism.Check.C01
+import Prism.Float.SFBasic
 import Mathlib.Tactic.Linarith
 import Mathlib.Tactic.Positivity
 import Mathlib.Tactic.Ring
@@ -17,7 +16,6 @@ on non-negative finite floats.
 -/
 
 namespace SF
-open Prism
 
 /-! ### The logarithm search -/
 
